@@ -66,3 +66,51 @@ Theorem boolean_prop tag prop s b : linked tag prop = true -> od_get prop specia
   is_binary_string (renamed prop) = false -> is_binary (renamed prop) = true ->
   prop_get tag prop s b = VBool (match snd (getAttribute (renamed prop) s) with PFalse => false | _ => true end).
 Proof. intros H1 H2 H3 H4. unfold prop_get. now rewrite H1, H2, H3, H4. Qed.
+
+(* ---------- assignment: the only property assignment that raises is an out-of-range maxLength ---------- *)
+Definition all_linked_names : list string := attribute_links ++ flat_map snd tag_additional.
+Lemma smem_In x l : smem x l = true -> In x l.
+Proof.
+  induction l as [|y r IH]; cbn [smem]; [discriminate|]. intros H. apply Bool.orb_true_iff in H as [H|H]; [left; symmetry; now apply String.eqb_eq | right; auto].
+Qed.
+Lemma od_get_in_list {V} k (d : list (string * V)) v : od_get k d = Some v -> In (k, v) d.
+Proof.
+  induction d as [|[k' v'] r IH]; cbn [od_get]; [discriminate|]. destruct (String.eqb k k') eqn:E; intros H.
+  - apply String.eqb_eq in E. inversion H; subst. now left.
+  - right; auto.
+Qed.
+Lemma linked_in_table tag prop : linked tag prop = true -> In prop all_linked_names.
+Proof.
+  unfold linked, all_linked_names. intros H. apply in_or_app. apply Bool.orb_true_iff in H as [H|H]; [left; now apply smem_In|]. right.
+  destruct (od_get tag tag_additional) as [l|] eqn:E; [|discriminate]. apply in_flat_map. exists (tag, l). split; [now apply od_get_in_list | now apply smem_In].
+Qed.
+(* finite table (regenerated from constants.py on every run): every linked property is stored under a valid attribute name *)
+Lemma linked_names_valid_b : forallb (fun p => valid_attr_name (renamed p)) all_linked_names = true.
+Proof. vm_compute. reflexivity. Qed.
+Lemma linked_name_valid tag prop : linked tag prop = true -> valid_attr_name (renamed prop) = true.
+Proof. intros H. apply linked_in_table in H. exact (proj1 (forallb_forall _ _) linked_names_valid_b _ H). Qed.
+Lemma setitem_ok k v s : snd (setitem k v s) = ROk.
+Proof.
+  unfold setitem. destruct (String.eqb (lower k) "style"); [reflexivity|]. destruct (String.eqb (lower k) "class"); [reflexivity|].
+  destruct (is_binary_string (lower k)); reflexivity.
+Qed.
+Lemma validation_only_maxLength name : smem name special_validation_names = true -> name = "maxLength".
+Proof. intros H. apply smem_In in H. destruct H as [H|[]]. now symmetry. Qed.
+Theorem prop_set_raises_only_maxLength tag prop v isbool s e : linked tag prop = true ->
+  snd (prop_set tag prop v isbool s) = RExc e -> prop = "maxLength" /\ e = EIndexSize.
+Proof.
+  intros Hl H. unfold prop_set in H. rewrite Hl, Bool.andb_true_r in H.
+  destruct (String.eqb prop "maxLength") eqn:Em.
+  - apply String.eqb_eq in Em. split; [exact Em|].
+    match type of H with snd (if ?c then _ else _) = _ => destruct c end.
+    + unfold setAttribute in H. replace (valid_attr_name "maxlength") with true in H by (vm_compute; reflexivity).
+      rewrite setitem_ok in H. discriminate.
+    + cbn [snd] in H. congruence.
+  - exfalso. unfold dot_assign in H. destruct (String.eqb prop "className"); [discriminate|]. rewrite Hl in H.
+    destruct (smem prop special_validation_names) eqn:Ev.
+    { apply validation_only_maxLength in Ev. subst. discriminate. }
+    pose proof (linked_name_valid tag prop Hl) as Hv. unfold setAttribute in H. rewrite Hv in H.
+    destruct (is_binary_string (renamed prop)); [rewrite setitem_ok in H; discriminate|].
+    destruct (is_binary (renamed prop)); [|rewrite setitem_ok in H; discriminate].
+    match type of H with snd (if ?c then _ else _) = _ => destruct c end; [rewrite setitem_ok in H|]; discriminate.
+Qed.
